@@ -90,7 +90,8 @@ def run_task(task):
                 else:
                     rec['replay'] = dict(status='no-replay')
                 res['failures'].append(rec)
-            if cross_fn is not None:
+            if cross_fn is not None and not any(e[0] == 'external-raise' for e in r.ctx.events):
+                # (a path on which an external call raised has no native counterpart without fault injection)
                 try:
                     mm = cross_fn(env, r)
                     res['crosschecked'] += 1
